@@ -7,7 +7,7 @@ import threading
 import vlib
 
 # event codes (harness/cmd/c03/main.go, Corr/C03.v)
-MSG, BAN, UNBAN, BLACK, UNBLACK, EXPIRE, DELETE, RATE, CLOSE, OPEN, REKEY, REGISTER, BADJSON, DELANON, CORRUPT, RESTART, BLACKC, UNBLACKC, BANLAPSE, LAND, SETREC, WHITE, UNWHITE, BODY, OVERLAP = range(25)
+MSG, BAN, UNBAN, BLACK, UNBLACK, EXPIRE, DELETE, RATE, CLOSE, OPEN, REKEY, REGISTER, BADJSON, DELANON, CORRUPT, RESTART, BLACKC, UNBLACKC, BANLAPSE, LAND, SETREC, WHITE, UNWHITE, BODY, OVERLAP, BANPERM, TEMPLAPSE, BLACKW, UNBLACKW, BLACKLAPSE = range(30)
 A, B, E = 1, 2, 3          # clients registered by the setup prefix; E's credentials are expired
 UNKNOWN = 9001
 
@@ -175,6 +175,65 @@ def overlap_cases():
     return out
 
 
+def nest(inflight, core):
+    """inflight = handshake ops that pass their gate checks in this order; core = ops completing while all of them are in flight;
+    the in-flight handshakes then complete in REVERSE order of their start (innermost first)"""
+    ops = list(core)
+    for m in reversed(inflight):
+        ops = [[OVERLAP, len(ops)], m] + ops
+    return ops
+
+
+def covering_entry_cases():
+    """an address covered by several blacklist entries with different deadlines: an exact entry, its /32 (/128) range, the wider
+    /31 (/127) range.  One lapses (the expired record stays in the table), another is permanent: refused by EVERY handshake kind;
+    quiet=1 makes the handshake the first lookup after the expiry."""
+    add = {0: lambda p: [BLACK, 0, p], 1: lambda p: [BLACKC, 0, p], 2: lambda p: [BLACKW, 0, p]}
+    rem = {0: [UNBLACK, 0], 1: [UNBLACKC, 0], 2: [UNBLACKW, 0]}
+    out = []
+    for fam in (0, 2):
+        for lapsed in (0, 1, 2):
+            for keep in (0, 1, 2):
+                if keep == lapsed:
+                    continue
+                for quiet in (1, 0):
+                    for shake in (msg(1, 0, new=1), msg(1, A), msg(1, A, key=-2), msg(1, B, key=0), msg(1, 0, new=1, tun=1)):
+                        out.append(case_of(SETUP2 + [msg(1, A), add[keep](1), add[lapsed](0), [BLACKLAPSE, 0, lapsed, quiet], shake, msg(1, 0, new=1), msg(2, B), msg(2, B, key=-2),
+                                                     rem[keep], msg(1, A), msg(1, A, key=-2)], fam={0: fam, 1: 0}))
+                # both lapse: the address is free again; across a restart the permanent one still holds
+                out.append(case_of(SETUP2 + [add[keep](0), add[lapsed](0), [BLACKLAPSE, 0, lapsed, 1], [BLACKLAPSE, 0, keep, 1], msg(1, A), msg(1, A, key=-2)], fam={0: fam, 1: 0}))
+                out.append(case_of(SETUP2 + [add[keep](1), add[lapsed](1), [BLACKLAPSE, 0, lapsed, 1], [RESTART, 0], [OPEN, 1, 0], [OPEN, 2, 1], msg(1, 0, new=1), msg(2, B)], fam={0: fam, 1: 0}))
+    return out
+
+
+def perm_ban_cases():
+    """a PERMANENT ban (operator BanIP(ip,0), or PermanentBanAt failures) followed by failures of handshakes that were already past the
+    gate (temporary-ban requests), a RecordSuccess in between, the end of the temporary period: refused for ever"""
+    n = 7
+    many = [[REGISTER], [REGISTER], [REGISTER], [EXPIRE, E]] + [[OPEN, k, 0] for k in range(1, n + 1)]
+    slots = tuple(range(1, n + 1))
+    after = [[TEMPLAPSE, 0], msg(1, 0, new=1), msg(2, A), msg(3, B), [BAN, 0], [TEMPLAPSE, 0], msg(1, 0, new=1), [UNBAN, 0], msg(2, A), msg(2, A, key=-2)]
+    out = []
+    fails5 = [msg(k, UNKNOWN) for k in range(1, 6)]
+    # operator permanent ban while five failing handshakes are in flight
+    out.append(case_of(many + nest(fails5, [[BANPERM, 0]]) + after, slots=slots, addrs=(0,)))
+    out.append(case_of(many + [msg(1, UNKNOWN)] * 4 + nest([msg(2, UNKNOWN)], [[BANPERM, 0]]) + after, slots=slots, addrs=(0,)))
+    out.append(case_of(many + [msg(1, UNKNOWN)] * 4 + nest([msg(2, B, key=0)], [[BANPERM, 0], [BAN, 0]]) + after, slots=slots, addrs=(0,)))
+    # PermanentBanAt failures (unbanned by the operator in between), then an in-flight success wipes the counters and five more
+    # in-flight failures ask for a temporary ban
+    reach = [msg(1, UNKNOWN)] * 5
+    for _ in range(14):
+        reach += [[UNBAN, 0], msg(1, UNKNOWN)]
+    reach += [[UNBAN, 0]]                                   # 19 failures, not banned
+    out.append(case_of(many + [msg(7, A)] + reach + nest([msg(k, UNKNOWN) for k in range(2, 7)] + [msg(7, A, key=-2)], [msg(1, UNKNOWN)]) + after,
+                       slots=slots, addrs=(0,)))
+    out.append(case_of(many + reach + [msg(1, UNKNOWN)] + after, slots=slots, addrs=(0,)))
+    # plain histories: permanent survives the end of temporary periods, a later temporary BanIP, short bans; a temporary one does not
+    out.append(case_of(SETUP2 + [[BANPERM, 0], [BAN, 0], [TEMPLAPSE, 0], [BANLAPSE, 0, 0], [LAND, 0], msg(1, 0, new=1), msg(1, A), [RESTART, 0], [OPEN, 1, 0], msg(1, A)]))
+    out.append(case_of(SETUP2 + [[BAN, 0], msg(1, A), [TEMPLAPSE, 0], msg(1, A), msg(1, A, key=-2), [BAN, 0], [BANPERM, 0], [TEMPLAPSE, 0], msg(1, A)]))
+    return out
+
+
 def restart_cases():
     """blacklist entries of every form (exact IP / CIDR, 1 h / permanent) must still gate after a restart over the same
     storage; lapsed short-lived entries must not come back; bans and failure counts are in memory only"""
@@ -306,8 +365,11 @@ def random_case(rng, nconn=3, naddr=2, length=None):
         elif r < 0.97:
             a = rng.randrange(naddr)
             ops.append([OPEN, k, a, shape(a)])
-        elif r < 0.98:
+        elif r < 0.975:
             ops.append([rng.choice([WHITE, UNWHITE]), rng.randrange(naddr), rng.randrange(2)])
+        elif r < 0.98:
+            c = rng.choice([BANPERM, TEMPLAPSE, BLACKW, UNBLACKW, BLACKLAPSE])
+            ops.append([c, rng.randrange(naddr)] + ([rng.randrange(2)] if c == BLACKW else [rng.randrange(3), 0] if c == BLACKLAPSE else []))
         else:
             ops.append([BADJSON, k])
     # a first connection after the server lost count is not generated: ncli tracks only an upper bound, and the harness
@@ -364,8 +426,10 @@ def enc_ev(op, st):
         return [REGISTER]
     if c == OPEN:
         return [OPEN, op[1], op[2] + 50 * st.get("ea", 0)]     # a peer whose zone survives extractIP is another address for every gate
-    if c in (WHITE, UNWHITE):
+    if c in (WHITE, UNWHITE, BLACKLAPSE):
         return [c, op[1], op[2]]
+    if c in (BANPERM, TEMPLAPSE, BLACKW, UNBLACKW):
+        return [c, op[1]]
     if c == BLACK:
         return [BLACK, op[1]]
     if c in (BLACKC, UNBLACKC, RESTART, BANLAPSE, LAND):
@@ -379,43 +443,41 @@ def enc_ev(op, st):
 
 def case_value(case, out, variant):
     """events and observations in the order in which their effects took place: an overlapped handshake that passed its gate
-    checks first (h=1) completes AFTER the ops that ran in between -> model events: inner ops..., EBody"""
+    checks first (h=1) completes AFTER the ops that ran in between -> model events: inner ops..., EBody (nesting allowed)"""
     ops, steps = case["ops"], out["steps"]
-    seq = []
-    i = 0
-    while i < len(ops):
-        if ops[i][0] == OVERLAP:
-            n = ops[i][1]
-            a = i + 1
-            inner = list(range(i + 2, min(i + 2 + n, len(ops))))
-            if steps[a].get("h"):
-                seq += [(j, False) for j in inner] + [(a, True)]
+    inflight = {}     # op index -> [(slot, connection observation before the overlap)]
+
+    def lin(lo, hi):
+        seq = []
+        i = lo
+        while i < hi:
+            if ops[i][0] == OVERLAP:
+                a, ilo, ihi = i + 1, i + 2, min(i + 2 + ops[i][1], hi)
+                if steps[a].get("h"):
+                    # the session layer registers the (unauthenticated) ControlConnection of an in-flight handshake when it begins; the
+                    # model does so when it completes (EBody).  While the overlapping ops run, that one flag is taken as it was.
+                    if ops[a][1] in case["slots"]:
+                        slot = case["slots"].index(ops[a][1])
+                        for j in range(ilo, ihi):
+                            inflight.setdefault(j, []).append((slot, steps[i]["c"][slot]))
+                    seq += lin(ilo, ihi) + [(a, True)]
+                else:
+                    seq += [(a, False)] + lin(ilo, ihi)
+                i = ihi
             else:
-                seq += [(a, False)] + [(j, False) for j in inner]
-            i += 2 + len(inner)
-        else:
-            seq.append((i, False))
-            i += 1
+                seq.append((i, False))
+                i += 1
+        return seq
+
     evs, obs = [], []
-    # the session layer registers the (unauthenticated) ControlConnection of an in-flight handshake when it begins; the model does
-    # so when it completes (EBody).  While the overlapping ops run, that one flag of the in-flight connection is taken as it was.
-    inflight = {}
-    i = 0
-    while i < len(ops):
-        if ops[i][0] == OVERLAP and steps[i + 1].get("h"):
-            slot = case["slots"].index(ops[i + 1][1]) if ops[i + 1][1] in case["slots"] else None
-            for j in range(i + 2, min(i + 2 + ops[i][1], len(ops))):
-                inflight[j] = (slot, steps[i]["c"][slot] if slot is not None else None)
-        i += 1
-    for j, body in seq:
+    for j, body in lin(0, len(ops)):
         e = enc_ev(ops[j], steps[j])
         if body:
             e = [BODY] + e[1:]
         evs.append(e)
         s = steps[j]
         cs = [list(c) for c in s["c"]]
-        if j in inflight and inflight[j][0] is not None:
-            slot, before = inflight[j]
+        for slot, before in inflight.get(j, []):
             if before[1] == 0 and cs[slot][1:] == [1, 0, 0, 0]:
                 cs[slot] = list(before)
         obs.append([s["o"][0], s["o"][1], s["o"][2], cs, s["i"], s["b"], s["k"], s["f"], s["n"]])
@@ -461,7 +523,9 @@ def detect_variant(binary):
     anon = 0 if oa["steps"][-1]["o"][1] == 3 else 1      # is a challenge still issued for the deleted client?
     # does a first connection leave the address's failure record alone (fixes/C18-anon-registration-keeps-failures.diff)?
     keep = 1 if ok["steps"][-1]["f"][0] == 1 else 0
-    return [gate, anon, keep]
+    # the ban table never weakens a ban (fixes/C18-ban-never-weakened.diff, applied): the model is always the monotone one, so a
+    # tree that overwrites a permanent ban shows up as a predicate violation AND a model mismatch
+    return [gate, anon, keep, 1]
 
 
 def run(ctx, only_cases=None):
@@ -501,6 +565,8 @@ def run(ctx, only_cases=None):
         cases += list_edit_cases(rng, thorough)
         cases += shape_cases()
         cases += overlap_cases()
+        cases += covering_entry_cases()
+        cases += perm_ban_cases()
         cases += reban_cases(12 if thorough else 4)
     outs = run_parallel(binary, cases)
 
@@ -558,7 +624,7 @@ def run(ctx, only_cases=None):
     for c in cases:
         for op in c["ops"]:
             kinds[op[0]] = kinds.get(op[0], 0) + 1
-    names = ["msg", "ban", "unban", "blacklist", "unblacklist", "expire", "delete", "rate", "close", "open", "rekey", "register", "badjson", "delete_anonymous", "corrupt_stored_credential", "restart", "blacklist_cidr", "unblacklist_cidr", "ban_lapse", "async_unban_lands", "set_record", "whitelist", "unwhitelist", "body", "overlap"]
+    names = ["msg", "ban", "unban", "blacklist", "unblacklist", "expire", "delete", "rate", "close", "open", "rekey", "register", "badjson", "delete_anonymous", "corrupt_stored_credential", "restart", "blacklist_cidr", "unblacklist_cidr", "ban_lapse", "async_unban_lands", "set_record", "whitelist", "unwhitelist", "body", "overlap", "ban_permanent", "temporary_period_over", "blacklist_wide", "unblacklist_wide", "blacklist_entry_lapses"]
     ctx.coverage.update({
         "evaluations": len(cases), "distinct_nontrivial": len(nontrivial),
         "exhaustive": bool(exhaustive),
@@ -575,7 +641,7 @@ def run(ctx, only_cases=None):
                 "scenarios. distinct = distinct event lists; non-trivial = at least one challenge issued or one Success response by the real server.",
         "samples": [{"case": cases[i], "observed": outs[i]["steps"][-1]} for i in (0, len(cases) // 2, len(cases) - 1) if i < len(cases)],
         "model_vs_impl_cases": len(terms), "model_vs_impl_mismatches": len(mism),
-        "impl_property_failures": nfail, "tree_variant": {"success_gate": variant[0], "anon_delete": variant[1], "first_connection_keeps_failures": variant[2]},
+        "impl_property_failures": nfail, "tree_variant": {"success_gate": variant[0], "anon_delete": variant[1], "first_connection_keeps_failures": variant[2], "ban_monotone": variant[3]},
         "input_distribution": {"enumerated_or_sampled_alphabet_histories": n_ex, "events_by_kind": {names[k]: v for k, v in sorted(kinds.items())},
                                "success_responses": succ, "challenges_issued": chal, "distinct_histories": len(distinct)},
         "generated_file_changed": gen_changed,
